@@ -64,7 +64,7 @@ Proof.
            | |- Forall _ _ => repeat constructor
            | |- True => exact I
            end; try reflexivity; try lia; cbn;
-      try (left; split; [first [left; reflexivity | right; left; cbn; tauto | right; right; reflexivity]|]; intros; try discriminate; try (split; [discriminate|reflexivity]));
+      try (left; first [left; reflexivity | right; left; cbn; tauto | right; right; reflexivity]);
       try (right; split; [first [left; reflexivity|right; reflexivity]|]; try exact I; try reflexivity). }
   destruct H as [H1 H2]. split; [exact H1|]. split; [exact H2|].
   exact (C01_roundtrip_partial (fun _ => []) (fun _ => true) true dec_to_f64 SrcIo c01_sample H1 H2).
